@@ -10,6 +10,7 @@ mod session;
 mod connect;
 mod negotiate;
 mod ntlm;
+mod ntlmauth;
 
 use std::io::{self, BufRead, Write};
 
@@ -27,6 +28,9 @@ fn dispatch(op: &str, args: &[&str]) -> String {
         "sess" => ntlm::op_sess(args),
         "raw" => ntlm::op_raw(args),
         "tamper" => ntlm::op_tamper(args),
+        "negotiate" => ntlmauth::op_negotiate(args),
+        "auth" => ntlmauth::op_auth(args),
+        "unicode" | "ntowfv2" | "lmowfv2" | "ntowfv2h" | "cresp" | "authmsg" => ntlmauth::op_prim(op, args),
         _ => format!("unknown-op:{}", op),
     }
 }
